@@ -1,4 +1,6 @@
 """C19 - tagged runs execute exactly the tagged tests; listing runs none."""
+import contextlib
+import io
 import json
 import os
 import re
@@ -316,7 +318,7 @@ class C19(core.Prop):
     pid = 'C19'
     lean_modules = ['TddaVerif.Props.C19']
     theorems = ['TddaVerif.Props.C19.' + t for t in ['parseArgv_spec', 'write_needs_kinds', 'tagged_selects_exactly',
-        'untagged_selects_all', 'selected_once', 'check_runs_none', 'check_lists_exactly', 'selectTests_mem']]
+        'untagged_selects_all', 'selected_once', 'check_runs_none', 'check_lists_exactly', 'selectTests_mem', 'pytest_no_option_untouched', 'pytest_tagged_selects_exactly', 'pytest_tagged_mem_iff', 'pytest_tagged_nodup', 'pytest_check_runs_none', 'pytest_check_lists_exactly', 'pytest_check_lists_classes_once']]
     quick_n = 1500
     thorough_n = 30000
     n_sub_quick = 48
@@ -341,6 +343,8 @@ class C19(core.Prop):
 
     def gen_case(self, rng, i):
         r = rng.random()
+        if r < 0.15:
+            return gen_pyfilter(rng)
         if r < 0.6:
             return {'kind': 'argv', 'argv': gen_argv(rng)}
         c = {'kind': 'module', 'classes': gen_module(rng), 'tagged': rng.random() < 0.6, 'check': rng.random() < 0.3}
@@ -354,6 +358,8 @@ class C19(core.Prop):
         return c
 
     def model_ops(self, case):
+        if case['kind'] == 'pyfilter':
+            return [run_pyfilter(case)[1]]
         if case['kind'] == 'argv':
             return [{'op': 'c19.parse_argv', 'argv': case['argv']}]
         if case.get('names'):
@@ -362,6 +368,8 @@ class C19(core.Prop):
         return [{'op': 'c19.select', 'classes': plain, 'tagged': case['tagged'], 'check': case['check']}]
 
     def impl_outputs(self, case):
+        if case['kind'] == 'pyfilter':
+            return [run_pyfilter(case)[0]]
         if case['kind'] == 'argv':
             return [run_set_flags(case['argv'])]
         built = build_classes(case['classes'])
@@ -394,6 +402,8 @@ class C19(core.Prop):
 
     def nontrivial_key(self, case):
         self.count('kind_' + case['kind'])
+        if case['kind'] == 'pyfilter':
+            return json.dumps(case, sort_keys=True) if (case['run'] or case['show']) and len(case['items']) >= 2 else None
         if case['kind'] == 'argv':
             return json.dumps(case['argv']) if len(case['argv']) >= 3 else None
         t = [ent[1] or c['tag'] for c in case['classes'] for ent in c['own']]
@@ -402,6 +412,32 @@ class C19(core.Prop):
     def oracle(self, case):
         F = []
         fail = lambda clause, detail, key=None: F.append(core.Failure(clause, case, detail, key or clause))
+        if case['kind'] == 'pyfilter':
+            impl, op = run_pyfilter(case)
+            if 'exc' in impl:
+                fail('pytest-filter-raises', impl['exc'])
+                return F
+            cl = case['classes']
+            want_run, want_listed = [], []
+            for it in case['items']:
+                if it['cls'] is None:
+                    tg = it['fn_tagged']
+                    nm = it['name']
+                else:
+                    tg = class_tagged(cl, it['cls']) or all_methods(cl, it['cls'])[it['name']]
+                    nm = '%s.%s' % (cl[it['cls']]['name'], it['name'])
+                if tg:
+                    label = it['name'] if it['cls'] is None else cl[it['cls']]['name']
+                    if label not in want_listed:
+                        want_listed.append(label)
+                if not case['show'] and (tg or not case['run']):
+                    want_run.append(nm)
+            if impl['kept'] != want_run:
+                fail('pytest-filter-run', 'options run=%s show=%s: kept %r expected %r' % (case['run'], case['show'], impl['kept'], want_run),
+                     'pytest-filter-run')
+            if case['show'] and impl['printed'] != want_listed:
+                fail('pytest-filter-listed', 'listed %r expected %r' % (impl['printed'], want_listed), 'pytest-filter-listed')
+            return F
         if case['kind'] == 'argv':
             argv = case['argv']
             if not argv or argv[0] in WRITE + LONG_TDDA or argv[0].startswith('-'):
@@ -511,6 +547,68 @@ def oracle_run(case):
         if got != listed:
             fail('run-listed', 'args %r listed %r expected %r' % (case['args'], got, listed))
     return F
+
+
+def gen_pyfilter(rng):
+    """a collection as pytest hands it to the library's filter: methods of classes (with single inheritance, class and
+    method tags) and module-level functions, in file order"""
+    classes = gen_module(rng)
+    items = []
+    order = list(range(len(classes))) + ['fn'] * rng.randint(0, 3)
+    rng.shuffle(order)
+    nfn = 0
+    for o in order:
+        if o == 'fn':
+            items.append({'name': 'test_fn%d' % nfn, 'cls': None, 'fn_tagged': rng.random() < 0.4})
+            nfn += 1
+        else:
+            for m in sorted(all_methods(classes, o)):
+                items.append({'name': m, 'cls': o})
+    return {'kind': 'pyfilter', 'classes': [dict(c, own=[e[:2] for e in c['own']]) for c in classes], 'items': items,
+            'run': rng.random() < 0.6, 'show': rng.random() < 0.35}
+
+
+def run_pyfilter(case):
+    """(implementation result, model op): referencepytest.tagged on stand-ins for pytest items whose .obj are real bound
+    methods of real classes / real functions carrying the real tag"""
+    from tdda.referencetest import referencepytest
+    built = build_classes(case['classes'])
+    for k in built:
+        k.__module__ = 'm'
+
+    class It:
+        def __init__(self, name, obj):
+            self.name, self.obj = name, obj
+
+    items, minfo = [], []
+    for it in case['items']:
+        if it['cls'] is None:
+            def fn():
+                pass
+            fn.__name__ = it['name']
+            fn.__module__ = 'm'
+            f = tag(fn) if it['fn_tagged'] else fn
+            items.append(It(it['name'], f))
+            minfo.append({'name': it['name'], 'cls': None, 'cls_tagged': False, 'fn_tagged': bool(getattr(f, '_tagged', None))})
+        else:
+            k = built[it['cls']]
+            inst = k(it['name'])
+            bound = getattr(inst, it['name'])
+            items.append(It('%s.%s' % (k.__name__, it['name']), bound))
+            minfo.append({'name': '%s.%s' % (k.__name__, it['name']), 'cls': k.__name__,
+                          'cls_tagged': bool(getattr(k, '_tagged', None)), 'fn_tagged': bool(getattr(bound, '_tagged', None))})
+
+    class Cfg:
+        def getoption(self_, name, default=None):
+            return {'--tagged': case['run'], '--istagged': case['show']}.get(name, default)
+    out = io.StringIO()
+    try:
+        with contextlib.redirect_stdout(out):
+            referencepytest.tagged(Cfg(), items)
+        impl = {'kept': [i.name for i in items], 'printed': [l.rsplit('.', 1)[-1] for l in out.getvalue().split('\n') if l.strip()]}
+    except Exception as e:   # noqa
+        impl = {'exc': type(e).__name__}
+    return impl, {'op': 'c19.pytest_filter', 'run': case['run'], 'show': case['show'], 'items': minfo}
 
 
 CONFTEST = '''
